@@ -316,3 +316,24 @@ func VxH_C18_path() {
 	}
 	vx.Assert("current-point", vx.And(vx.ApproxEq(float64(p.currentX), float64(ref.cur.x)), vx.ApproxEq(float64(p.currentY), float64(ref.cur.y))))
 }
+
+// elliptical arcs (SVG F.6): radii too small to span the chord are scaled up uniformly — their
+// ratio is kept and neither shrinks.
+func VxH_C18_arc_center() {
+	ra0 := vx.F64("rx")
+	vx.Assume(vx.And(ra0 >= 1, ra0 <= 100))
+	rb0 := ra0 * []float64{1, 2, 0.5}[vx.Choose("ry-over-rx", 3)]
+	sx, sy := 0.0, 0.0
+	ex, ey := vx.F64("x1"), vx.F64("y1")
+	vx.Assume(vx.And(vx.And(ex >= -100, ex <= 100), vx.And(ey >= -100, ey <= 100)))
+	vx.Assume(vx.Or(ex != sx, ey != sy))
+	sweep, small := vx.Choose("sweep", 2) == 1, vx.Choose("small-arc", 2) == 1
+	ra, rb := ra0, rb0
+	cx, cy := findEllipseCenter(&ra, &rb, 0, sx, sy, ex, ey, sweep, small)
+	vx.Reach("centre")
+	vx.Assert("radii-ratio-kept", vx.RealEq(ra*rb0, rb*ra0))
+	vx.Assert("radii-not-shrunk", vx.And(ra >= ra0-1e-9, rb >= rb0-1e-9))
+	// "both end points lie on the ellipse around the centre" (a degree-4 identity through two
+	// square roots) was tried and is beyond z3's nlsat within 20 minutes: not claimed.
+	_, _ = cx, cy
+}
